@@ -1079,6 +1079,12 @@ def np_zeros(it, a, k):
 
 def np_outer(it, a, k):
     x, y = as_vec(it, a[0]), as_vec(it, a[1])
+    if not isinstance(x, Vec):
+        x0 = x
+        x = Vec(1, lambda i: x0)
+    if not isinstance(y, Vec):
+        y0 = y
+        y = Vec(1, lambda i: y0)
     return Mat(x.n, y.n, lambda i, j: it.ops.binop('Mult', x.at(i), y.at(j)))
 
 
@@ -1141,7 +1147,10 @@ def np_shape(it, a, k):
 
 
 def np_squeeze(it, a, k):
-    return a[0]
+    x = a[0]
+    if isinstance(x, Vec) and isinstance(x.n, int) and x.n == 1:
+        return x.at(0)          # numpy: 0-d array, behaves as the scalar
+    return x
 
 
 def np_isscalar(it, a, k):
@@ -1183,6 +1192,18 @@ def np_polyval(it, a, k):
         return it.ops.map1(horner, x)
     f = obj_fun('polyval', p)
     return it.ops.map1(lambda v: SV(f(term(v, True))), x)
+
+
+def np_cumprod(it, a, k):
+    """ASSUMED: cumprod(v) is an array of len(v) determined by v (its values are constrained by contracts only)"""
+    v = as_vec(it, a[0])
+    key = ('cumprod', id(v))
+    if key not in _OBJ_FUNS:
+        _OBJ_FUNS[key] = ((v,), fresh_fun('cumprod', I, R))
+    f = _OBJ_FUNS[key][1]
+    r = Vec(v.n, lambda i: SV(f(term(i))))
+    r._kind = 'real'
+    return r
 
 
 def np_linspace(it, a, k):
@@ -1239,7 +1260,7 @@ NUMPY = {
     'sum': np_sum, 'any': b_any, 'all': b_all, 'amin': np_amin, 'amax': np_amax, 'min': np_amin, 'max': np_amax,
     'shape': np_shape, 'squeeze': np_squeeze, 'isscalar': np_isscalar, 'interp': np_interp,
     'errstate': np_errstate, 'minimum': np_minimum, 'maximum': np_maximum, 'clip': np_clip,
-    'concatenate': np_concatenate, 'polyval': np_polyval, 'linspace': np_linspace, 'logical_and': np_logical_and, 'abs': b_abs, 'absolute': b_abs,
+    'concatenate': np_concatenate, 'polyval': np_polyval, 'linspace': np_linspace, 'cumprod': np_cumprod, 'logical_and': np_logical_and, 'abs': b_abs, 'absolute': b_abs,
 }
 for _n_ in ('sqrt', 'log10', 'exp', 'log', 'arcsinh', 'ceil', 'floor', 'cos'):
     NUMPY[_n_] = np_unary(_n_)
@@ -1392,7 +1413,7 @@ def value_attr(it, o, name):
             return 1
     if isinstance(o, Mat):
         if name == 'shape':
-            return (o.n, o.m)
+            return (o.n if isinstance(o.n, int) else SV(o.n), o.m if isinstance(o.m, int) else SV(o.m))
         if name == 'T' or name == 'transpose':
             t = Mat(o.m, o.n, lambda i, j: o.at(j, i))
             return t if name == 'T' else Builtin('transpose', lambda it, a, k: t)
@@ -1428,6 +1449,11 @@ def value_attr(it, o, name):
             raise Unsupported(f'{name} on symbolic string')
     if isinstance(o, (int, Fraction, SV)) and name in ('real',):
         return o
+    if isinstance(o, (int, Fraction)) or (isinstance(o, SV) and o.kind in ('int', 'real')):
+        if name == 'size':
+            return 1             # asarray(scalar).size
+        if name == 'shape':
+            return ()
     if isinstance(o, Builtin) and o.name == 'dict' and name == 'fromkeys':
         return Builtin('fromkeys', lambda it, a, k: {it.key_of(x): (a[1] if len(a) > 1 else None) for x in it.iterate(a[0])})
     return NotImplemented
